@@ -31,6 +31,24 @@ def run(chk, repo):
     chk.rule("C02-X2", "result rank depends on the row indexer being an integer", 1)
     chk.rule("C02-X3", "stacking of a possibly empty list of rows is guarded", 1)
     chk.rule("C02-X4", "declared indexing support is served; keys are forwarded unchanged; row dispatch covers int and slice", 5)
+    chk.attempt(row_bookkeeping, chk, repo)
+    chk.attempt(x123, chk, repo, covered_by="row_bookkeeping", rules=("C02-X1", "C02-X2", "C02-X3"))
+    chk.attempt(x4, chk, repo)
+    chk.attempt(x4_rows, chk, repo, covered_by="row_bookkeeping")
+
+
+def row_bookkeeping(chk, repo):
+    """C02-X5: the backend's row selection evaluated on model images (vlib/loadmodel.py): for every row indexer of the grid the
+    rows handed to NumPy are range(n)[indexer] with their own bytes, in order; an integer drops the axis; the column
+    indexers are NumPy's business and reach it unchanged; an empty selection is an empty block of the declared dtype"""
+    from .load_rules import load_rules
+    load_rules(chk, repo, "C02-X5", ("rows", "axis", "columns", "empty"),
+               "model loads: for every row indexer (all integers, slices over all sign patterns, sorted lists) x line count x records_per_chunk the selected lines come back in NumPy's order with "
+               "their own bytes, an integer drops the axis, the column indexers reach NumPy unchanged, an empty selection is an empty block; also in sequences of loads on one array",
+               thorough=chk.tier == "thorough")
+
+
+def x123(chk, repo):
     am = repo.module(ARRAY)
     gi = am.func("Array.__getitem__")
     where = f"{am.relpath}:Array.__getitem__"
@@ -106,7 +124,10 @@ def run(chk, repo):
         chk.require(guarded, "C02-X3", where, f"{short(c, 40)} is guarded by an emptiness test",
                     f"{short(c, 40)} runs on the list `{lst}` that stays empty when no row is selected: an empty row selection raises ValueError instead of returning a (0, n) block",
                     key="getitem:empty-stack", sample={"call": short(c, 50)})
-    # ---------------------------------------------------------------- X4
+
+
+def x4(chk, repo):
+    am = repo.module(ARRAY)
     xm = repo.module(XR)
     wg = xm.func("LazilyIndexedWrapper.__getitem__")
     adapter = None
@@ -143,6 +164,14 @@ def run(chk, repo):
     kp = rim.positional_params[1]
     chk.require(len(rr) == 1 and norm(rr[0].value) == f"self.array[{kp}]", "C02-X4", f"{xm.relpath}:LazilyIndexedWrapper._raw_indexing_method",
                 "the key tuple is forwarded unchanged to the Array", f"_raw_indexing_method returns {short(rr[0].value, 50) if rr else None}", key="wrapper:forward")
+
+
+def x4_rows(chk, repo):
+    am = repo.module(ARRAY)
+    gi = am.func("Array.__getitem__")
+    where = f"{am.relpath}:Array.__getitem__"
+    flow = Flow(gi)
+    param = gi.positional_params[1]
     sr = am.func("compute_selected_ranges")
     kinds = set()
     for n in sr.own_nodes():
